@@ -39,6 +39,7 @@ type Engine struct {
 	timeoutS   int
 	verbose    bool
 	outDir     string
+	prop       string // property being checked ("" with -func)
 }
 
 func repoPkgPrefix() string { return "github.com/craterdog/go-collection-framework/v4" }
